@@ -165,7 +165,7 @@ fn cursor_case<W: Num>(run: &mut Run, rng: &mut Rng) {
         }};
     }
     for _ in 0..n {
-        let op = rng.below(12);
+        let op = rng.below(13);
         run.h(op);
         let is_rev = rev.is_some();
         match op {
@@ -239,6 +239,45 @@ fn cursor_case<W: Num>(run: &mut Run, rng: &mut Rng) {
                 if r.is_ok() != expect_ok {
                     fail!("C17/cursor-write", "write returned {:?}, expected ok={expect_ok} (pos {}, len {})", r, reference.pos, reference.buf.len());
                 }
+            }
+            11 => {
+                // bulk write: must behave exactly like writing word by word and stopping at the
+                // first error (also for iterators whose size_hint is only a lower bound)
+                let xs: Vec<W> = (0..rng.usize_in(0, 6)).map(|_| w::<W>(rng)).collect();
+                let loose = rng.bool();
+                let r = match (&mut rev, loose) {
+                    (Some(r), true) => r.extend_from_iter(xs.iter().copied().filter(|_| true)),
+                    (Some(r), false) => r.extend_from_iter(xs.iter().copied()),
+                    (None, true) => cur.extend_from_iter(xs.iter().copied().filter(|_| true)),
+                    (None, false) => cur.extend_from_iter(xs.iter().copied()),
+                };
+                let mut expect_ok = true;
+                for &x in &xs {
+                    let fits = if is_rev { reference.pos > 0 } else { reference.pos < reference.buf.len() };
+                    if !fits {
+                        expect_ok = false;
+                        break;
+                    }
+                    if is_rev {
+                        reference.pos -= 1;
+                        reference.buf[reference.pos] = x;
+                    } else {
+                        reference.buf[reference.pos] = x;
+                        reference.pos += 1;
+                    }
+                }
+                log.push(format!("extend_from_iter({},loose_hint={loose})", xs.len()));
+                if r.is_ok() != expect_ok {
+                    fail!("C17/cursor-write", "extend_from_iter of {} words returned {:?}, writing word by word gives ok={expect_ok}", xs.len(), r);
+                }
+                let (p_now, b_now) = match &rev {
+                    Some(r) => (r.pos(), r.0.buf().clone()),
+                    None => (cur.pos(), cur.buf().clone()),
+                };
+                if p_now != reference.pos || b_now != reference.buf {
+                    fail!("C17/cursor-write", "after extend_from_iter: (buf,pos) = ({:?},{p_now}), word-by-word gives ({:?},{})", fmt(&b_now), fmt(&reference.buf), reference.pos);
+                }
+                run.count("bulk_writes", 1);
             }
             6 => {
                 // bounds: remaining / space_left must equal the number of reads / writes that then
